@@ -23,6 +23,8 @@ pub type Target = ExprId;
 #[derive(Clone, Copy, PartialEq, Eq, Structural)]
 pub struct Fv(pub u64);
 pub struct CircuitBuilder { pub privs: Ghost<Seq<ExprId>>, pub pubs: Ghost<Seq<ExprId>> }
+/// `<SC::Challenge as BasedVectorSpace<Val<SC>>>::DIMENSION`
+#[verifier::external_body] pub fn challenge_dimension_() -> usize { unimplemented!() }
 impl CircuitBuilder {
     /// `(0..count).map(|_| self.alloc_private_input(label)).collect()`: count fresh private inputs, in order (ASSUMED)
     #[verifier::external_body]
@@ -144,23 +146,29 @@ def build():
     unmap_option(n)
     n.rewrite_re('R5', r'for (\w+) in ([\w.]+)\.iter\(\) \{', r'for q_ in 0..\2.len() { let \1 = &\2[q_];', min_count=0)
     n.rewrite_re('R12', r'\bSelf \{', 'OpenedValuesTargets {', min_count=1)
+    n.rewrite_re('R11', r'<SC::Challenge as BasedVectorSpace<Val<SC>>>::DIMENSION', 'challenge_dimension_()', min_count=0)
+    from vf.unit import unmap_iter_collect_general
+    n.body = re.sub(r'\binput\s+\.\s*(\w+)', r'input.\1', n.body)
+    unmap_iter_collect_general(n)
+    n.rewrite_re('SPEC-type', r'let mut (v_m\d+_) = Vec::new\(\);', r'let mut \1: Vec<Vec<ExprId>> = Vec::new();', min_count=0)
     n.ensures('allocation_order_is_the_traversal_order', 'final(circuit).privs@ == old(circuit).privs@ + targets_flat(&ret)')
     n.ensures('every_field_has_the_proof_length', 'same_shape(&ret, input)')
     n.ensures('no_public_inputs', 'final(circuit).pubs@ == old(circuit).pubs@')
     n.at_start('let ghost p0 = circuit.privs@;')
-    lo = n._loop_open('for q_ in 0..')
-    n.body = n.body[:lo + 1] + ' let ghost qt_b = quotient_chunks_targets@; let ghost pv_b = circuit.privs@; ' + n.body[lo + 1:]
-    n.at_loop_end('for q_ in 0..', '''proof {
-                lemma_flat_vv_push(qt_b, quotient_chunks_targets@[q_ as int]);
-                assert(quotient_chunks_targets@ =~= qt_b.push(quotient_chunks_targets@[q_ as int]));
-                assert(circuit.privs@ =~= pv_b + quotient_chunks_targets@[q_ as int]@);
-                assert((p_q + flat_vv(qt_b)) + quotient_chunks_targets@[q_ as int]@ =~= p_q + (flat_vv(qt_b) + quotient_chunks_targets@[q_ as int]@));
-            }''')
-    n.before('for q_ in 0..', 'let ghost p_q = circuit.privs@; proof { assert(p_q + flat_vv(quotient_chunks_targets@) =~= p_q); }')
-    n.loop('for q_ in 0..', invariants=[
-        ('chunks', 'quotient_chunks_targets@.len() == q_ && circuit.privs@ == p_q + flat_vv(quotient_chunks_targets@) && circuit.pubs@ == old(circuit).pubs@'),
-        ('lens', 'forall|q: int| 0 <= q < q_ ==> (#[trigger] quotient_chunks_targets@[q])@.len() == input.quotient_chunks@[q]@.len()'),
-    ])
+    if 'for q_ in 0..' in n.body:
+        lo = n._loop_open('for q_ in 0..')
+        n.body = n.body[:lo + 1] + ' let ghost qt_b = quotient_chunks_targets@; let ghost pv_b = circuit.privs@; ' + n.body[lo + 1:]
+        n.at_loop_end('for q_ in 0..', '''proof {
+                    lemma_flat_vv_push(qt_b, quotient_chunks_targets@[q_ as int]);
+                    assert(quotient_chunks_targets@ =~= qt_b.push(quotient_chunks_targets@[q_ as int]));
+                    assert(circuit.privs@ =~= pv_b + quotient_chunks_targets@[q_ as int]@);
+                    assert((p_q + flat_vv(qt_b)) + quotient_chunks_targets@[q_ as int]@ =~= p_q + (flat_vv(qt_b) + quotient_chunks_targets@[q_ as int]@));
+                }''')
+        n.before('for q_ in 0..', 'let ghost p_q = circuit.privs@; proof { assert(p_q + flat_vv(quotient_chunks_targets@) =~= p_q); }')
+        n.loop('for q_ in 0..', invariants=[
+            ('chunks', 'quotient_chunks_targets@.len() == q_ && circuit.privs@ == p_q + flat_vv(quotient_chunks_targets@) && circuit.pubs@ == old(circuit).pubs@'),
+            ('lens', 'forall|q: int| 0 <= q < q_ ==> (#[trigger] quotient_chunks_targets@[q])@.len() == input.quotient_chunks@[q]@.len()'),
+        ])
     n.bind_tail('r_', '''proof {
             assert(circuit.privs@ =~= p0 + targets_flat(&r_));
         }''')
